@@ -72,6 +72,11 @@ def tasks(tier, seed):
             out.append({"fn": "nondestructive", "kwargs": {"models": ms, "n": n, "tier": tier}, "label": f"nondestructive/{ms},n={n}", "logic": "QF_NRA", "caps": {"max_seconds": 300, "solver_timeout_ms": 30000}})
         for n in ((2, 3) if tier == "quick" else (2, 3, 4, 6)):
             out.append({"fn": "destructive", "kwargs": {"models": ms, "n": n, "tier": tier}, "label": f"destructive/{ms},n={n}", "logic": "QF_NRA", "caps": {"max_seconds": 300, "solver_timeout_ms": 30000}})
+    # every detector type (the reset between steps is type-specific)
+    for det in ("cmos", "mkid", "apd"):
+        for n in ((2, 3) if tier == "quick" else (2, 3, 4)):
+            out.append({"fn": "nondestructive", "kwargs": {"models": "uniform", "n": n, "tier": tier, "detector": det}, "label": f"nondestructive/uniform,n={n}/{det}", "logic": "QF_NRA", "caps": {"max_seconds": 300, "solver_timeout_ms": 30000}})
+        out.append({"fn": "destructive", "kwargs": {"models": "uniform", "n": 2, "tier": tier, "detector": det}, "label": f"destructive/uniform,n=2/{det}", "logic": "QF_NRA", "caps": {"max_seconds": 300, "solver_timeout_ms": 30000}})
     if tier == "thorough":
         # symbolic time scales also for the image / charge loaders (division by a symbolic scale: slow, may be inconclusive)
         for ms in ("charge", "image"):
@@ -96,6 +101,24 @@ TIER = {"v": "quick"}
 
 
 CHAR = {"quantum_efficiency": 0.5, "charge_to_volt_conversion": 2.0**-14, "pre_amplification": 4.0, "adc_bit_resolution": 16, "adc_voltage_range": (0.0, 8.0)}
+
+
+DETECTOR = {"kind": "ccd"}  # detector type of the exposures of the current task
+
+
+def _det():
+    """The harness detector: a CCD by default; CMOS / MKID / APD for the per-type tasks (the models used here are type-agnostic)."""
+    kind = DETECTOR["kind"]
+    if kind == "ccd":
+        return make_ccd(*SHAPE, **CHAR)
+    from .c08_keys import _make_det
+
+    d = _make_det(kind)
+    d.geometry._row, d.geometry._col = SHAPE
+    d.geometry._pixel_vert_size = d.geometry._pixel_horz_size = 10.0
+    d.geometry._total_thickness = 40.0
+    d._initialize()
+    return d
 
 
 def _adu_factor():
@@ -204,7 +227,7 @@ def _run(models, P, times, start, non_destructive, earlier_start=None):
         p.attr("pyxel.exposure.exposure", "_extract_datatree_2d", lambda detector: (frames.append(detector.pixel.array.copy()), xr.DataTree())[1], "records the pixel frame, returns an empty DataTree")
         p.attr("pyxel.models.photon_collection.load_image", "load_cropped_and_aligned_image", loader, "arbitrary file content")
         p.attr("pyxel.models.charge_generation.load_charge", "load_cropped_and_aligned_image", loader, "arbitrary file content")
-        det = make_ccd(*SHAPE, **CHAR)
+        det = _det()
         proc = Processor(detector=det, pipeline=_pipeline(models, P))
         if earlier_start is not None:
             ex.run_pipeline(processor=proc, readout=Readout(times=times, start_time=earlier_start, non_destructive=non_destructive), outputs=None, debug=False, with_inherited_coords=False)
@@ -225,13 +248,14 @@ def _schedule(n):
     return s, ts
 
 
-def nondestructive(models, n, tier="quick"):
+def nondestructive(models, n, tier="quick", detector="ccd"):
     TIER["v"] = tier
+    DETECTOR["kind"] = detector
     P = _params(models)
     s, ts = _schedule(n)
     fa = _run(models, P, [ts[-1]], s, True)
     fb = _run(models, P, ts, s, True)
-    lab = f"{models},n={n}"
+    lab = f"{models},n={n}" + ("" if detector == "ccd" else f",{detector}")
     vx.prove(f"C17/nondestructive/n_frames/{lab}", len(fa) == 1 and len(fb) == n)
     vx.prove(f"C17/nondestructive/partition_invariant/{lab}", arr_eq(fa[-1], fb[-1]))
     rate = _rate(models, P)
@@ -245,8 +269,9 @@ def nondestructive(models, n, tier="quick"):
         vx.prove(f"C17/nondestructive/reused_detector/{lab}", vx.all_of([len(fc) == n] + [e == r * (ts[-1] - s) for e, r in zip(symnp.asarray(fc[-1]).elems(), rate)]))
 
 
-def destructive(models, n, tier="quick"):
+def destructive(models, n, tier="quick", detector="ccd"):
     TIER["v"] = tier
+    DETECTOR["kind"] = detector
     P = _params(models)
     s, ts = _schedule(n)
     lam = vx.real("lambda")
@@ -256,7 +281,7 @@ def destructive(models, n, tier="quick"):
     vx.assume(ts2[0] != 0, "valid schedule")
     f2 = _run(models, P, ts2, s, False)
     rate = _rate(models, P)
-    lab = f"{models},n={n}"
+    lab = f"{models},n={n}" + ("" if detector == "ccd" else f",{detector}")
     prev = [s] + ts[:-1]
     vx.prove(f"C17/destructive/proportional/{lab}", vx.all_of([e == r * (t - q) for fr, t, q in zip(f1, ts, prev) for e, r in zip(symnp.asarray(fr).elems(), rate)]))
     vx.prove(f"C17/destructive/scaling/{lab}", vx.all_of([e2 == lam * e1 for fr1, fr2 in zip(f1, f2) for e1, e2 in zip(symnp.asarray(fr1).elems(), symnp.asarray(fr2).elems())]))
@@ -289,7 +314,7 @@ def _concrete_final(models, vals, times, start, non_destructive, earlier_start=N
                 for k in ("image_file", "filename"):
                     if k in m.arguments:
                         m.arguments[k] = os.path.join(tmp, m.arguments[k])
-        det = make_ccd(*SHAPE, **CHAR)
+        det = _det()
         if earlier_start is not None:
             pyxel.run_mode(mode=Exposure(readout=Readout(times=times, start_time=earlier_start, non_destructive=non_destructive)), detector=det, pipeline=pipe)
         dt = pyxel.run_mode(mode=Exposure(readout=Readout(times=times, start_time=start, non_destructive=non_destructive)), detector=det, pipeline=pipe)
@@ -320,6 +345,7 @@ def fidelity_nondestructive(kwargs, w):
     inp = unjson(w["inputs"])
     n = kwargs["n"]
     TIER["v"] = kwargs.get("tier", "quick")
+    DETECTOR["kind"] = kwargs.get("detector", "ccd")
     vals = _concrete_vals(inp, kwargs["models"])
     times = [float(inp[f"t{i}"]) for i in range(n)]
     start = float(inp["start"])
@@ -368,6 +394,7 @@ def replay(oid, kwargs, model, data):
         return True, data.get("info", {})
     n, models = kwargs["n"], kwargs["models"]
     TIER["v"] = kwargs.get("tier", "quick")
+    DETECTOR["kind"] = kwargs.get("detector", "ccd")
     vals = _concrete_vals(model, models)
     start = float(model.get("start", 0.0))
     times = [float(model.get(f"t{i}", i + 1)) for i in range(n)]
